@@ -689,6 +689,13 @@ func (s *Store[K, V]) sinkWrite(item WriteBufItem[K, V]) {
 			}
 		}
 
+		if item.rechedule && entry.expire.Load() <= s.timerwheel.clock.NowNano() {
+			// already past its new deadline: scheduling would park it
+			// in a slot that is only visited a full rotation later
+			s.removeEntry(entry, EXPIRED)
+			return
+		}
+
 		// update entry policy weight
 		entry.policyWeight += item.costChange
 
